@@ -11,7 +11,7 @@ git -C /repo worktree add -q --detach $W/wt HEAD || exit 2
 seeds=("$@"); [ ${#seeds[@]} = 0 ] && seeds=($V/seeded/*/)
 props=$($V/bin/rcheck -list)
 for s in "${seeds[@]}"; do
-  s=${s%/}; name=$(basename $s)
+  s=$(cd ${s%/} && pwd); name=$(basename $s)
   (cd $W/wt && git checkout -q -- . && git clean -fdq)
   if ! git -C $W/wt apply "$s/patch.diff" 2>/dev/null; then echo "$name: PATCH DOES NOT APPLY"; continue; fi
   rm -rf $W/out; mkdir -p $W/out
